@@ -8,12 +8,17 @@ pub mod script;
 pub mod probe;
 
 pub mod c02_arity;
+pub mod c06_cancel;
 pub mod c07_done;
 
 /// Registry for the native replay binary.
 #[cfg(not(kani))]
 pub const HARNESSES: &[(&str, fn())] = &[
     ("c02_arity_typed", c02_arity::c02_arity_typed),
+    ("c06_task_abort_a", c06_cancel::c06_task_abort_a),
+    ("c06_task_abort_b", c06_cancel::c06_task_abort_b),
+    ("c06_command_abort_a", c06_cancel::c06_command_abort_a),
+    ("c06_command_abort_b", c06_cancel::c06_command_abort_b),
     ("c07_evict_iff", c07_done::c07_evict_iff),
     ("c07_settle_q1", c07_done::c07_settle_q1),
     ("c07_settle_q2", c07_done::c07_settle_q2),
@@ -39,13 +44,24 @@ mod selftest {
     fn harnesses_pass_natively_on_sample_inputs() {
         let mut ran = 0usize;
         for (name, f) in super::HARNESSES {
-            for seed in 0u32..64 {
-                // byte pattern: bit i of seed -> value i (covers all boolean combinations of the
-                // first 6 choices), small integers elsewhere
+            for seed in 0u32..1024 {
+                // first value (the case selector of dispatch harnesses) sweeps 0..=255, the others
+                // follow four bit patterns
+                let v0 = (seed & 255) as u8;
+                let pat = seed >> 8;
                 let vals: Vec<Vec<u8>> = (0..24)
                     .map(|i| {
-                        let bit = if i < 6 { ((seed >> i) & 1) as u8 } else { ((seed as usize + i) % 3) as u8 };
-                        vec![bit, 0, 0, 0, 0, 0, 0, 0]
+                        let b = if i == 0 {
+                            v0
+                        } else {
+                            match pat {
+                                0 => 0,
+                                1 => 1,
+                                2 => (i % 2) as u8,
+                                _ => ((i + 1) % 2) as u8,
+                            }
+                        };
+                        vec![b, 0, 0, 0, 0, 0, 0, 0]
                     })
                     .collect();
                 super::nd::load(vals);
